@@ -31,10 +31,31 @@ CARRIED = {'StoryAppend': ('stories', None, 'story'), 'StoryInsert': ('source_st
            'EAItemInsert': ('items', 'element_source', 'item')}
 
 
-def observe(text):
-    """Accessors and inspect() of the real message object built from `text`."""
+def observe(text, ro_text=None):
+    """Accessors and inspect() of the real message object built from `text`; with `ro_text`, the same
+    object is then merged (twice) into that running order and read again: what a message exposes does not
+    depend on whether it has been merged."""
     from . import impl
     mo = impl.load(text)
+    out = read_object(mo)
+    if ro_text is not None:
+        try:
+            ro = impl.load(ro_text)
+        except Exception:  # noqa: BLE001
+            return out
+        changed = []
+        for n in (1, 2):
+            impl.add(ro, mo)
+            again = read_object(mo)
+            if again != out:
+                changed.append({'after_merges': n, 'exposed': again['exposed'], 'lines': again['lines']})
+                break
+        out['after_merge'] = changed
+    return out
+
+
+def read_object(mo):
+    from . import impl
     cls = type(mo).__name__
     out = {'cls': cls}
     acc = []
@@ -107,20 +128,20 @@ def messages(tier, seed):
             if text in seen:
                 continue
             seen.add(text)
-            out.append((f'{c["label"]}|{variant}', text))
+            out.append((f'{c["label"]}|{variant}', text, TJ.to_text(c['ro'])))
     rng = random.Random(seed * 17 + 9)
     g = gen_hist.Gen(rng)
     state = TJ.canon(g.ro(4))
     for k in range(300 if tier == 'quick' else 30000):
         cls, msg = gen_hist.random_message(g, state, 100 + k)
         text = TJ.to_text(pretty(msg) if k % 2 else msg)
-        out.append((f'random {cls} #{k}', text))
+        out.append((f'random {cls} #{k}', text, TJ.to_text(state)))
     frng = random.Random(seed * 23 + 1)
-    for lbl, text in list(out):
+    for lbl, text, ro_text in list(out):
         if frng.random() < (0.4 if tier == 'quick' else 2.0):
             try:
                 m = gen_fuzz.mutate(frng, TJ.parse(text))
-                out.append(('fuzz|' + lbl, TJ.to_text(m)))
+                out.append(('fuzz|' + lbl, TJ.to_text(m), ro_text))
             except Exception:  # noqa: BLE001
                 pass
     return out
@@ -130,14 +151,17 @@ def run_c20(tier, seed):
     from . import lean
     oc = Outcome('C20')
     msgs = []
-    for lbl, t in messages(tier, seed):
+    ros = []
+    for lbl, t, ro_text in messages(tier, seed):
         try:
             from . import impl
             impl.load(t)
             msgs.append((lbl, t))
+            ros.append(ro_text)
         except Exception:  # noqa: BLE001 - mutated into something unclassifiable
             continue
-    obs = [observe(t) for _, t in msgs]
+    obs = [observe(t, rt) for (_, t), rt in zip(msgs, ros)]
+    ro_of = {t: rt for (_, t), rt in zip(msgs, ros)}
     reqs = []
     for (_, text), o in zip(msgs, obs):
         r = {'op': 'elements', 'msg': TJ.parse(text)}
@@ -149,8 +173,11 @@ def run_c20(tier, seed):
         oc.evaluations += 1
         if r.get('classify_err'):
             continue
-        rec = {'kind': 'elements', 'text': text, 'label': lbl}
+        rec = {'kind': 'elements', 'text': text, 'label': lbl, 'ro_text': ro_of.get(text)}
         oc.count('class:' + o['cls'])
+        if o.get('after_merge'):
+            oc.failing.append(dict(rec, spec='what the message object exposes (accessors, inspect()) changed after the object was merged',
+                                   impl={'before': {'exposed': o['exposed'], 'lines': o['lines']}, 'after': o['after_merge'][0]}))
         shaped, shaped_i = r['shaped'], r['shaped_inspect']
         if shaped:
             oc.in_domain += 1
@@ -200,14 +227,14 @@ def run_c20(tier, seed):
 
 def replay(pid, fl):
     from . import lean
-    o = observe(fl['text'])
+    o = observe(fl['text'], fl.get('ro_text'))
     req = {'op': 'elements', 'msg': TJ.parse(fl['text'])}
     if 'ok' in o['exposed']:
         req['impl_exposed'] = o['exposed']['ok']
     r = lean.run_batch([req])[0]
     print(json.dumps({'impl': {'exposed': o['exposed'], 'lines': o['lines']}, 'model': {'exposed': r.get('exposed'), 'lines': r.get('lines')},
                       'holds': r.get('holds'), 'mention': r.get('mention')}, indent=1, ensure_ascii=False)[:3000])
-    bad = False
+    bad = bool(o.get('after_merge'))
     if r.get('shaped'):
         bad = bad or o['exposed'] != r['exposed'] or r['holds'] is not True
         if o['carried'] is not None and o['cls'] in CARRIED:
